@@ -129,12 +129,17 @@ class Rig(object):
                   "a new exchange is already done or failed", lambda: {"class": cname})
         return ex, stack, stamper, wantT, wantR
 
-    def schedule(self, cname, T, R, t0, delay, steps, tag, real=False):
+    def schedule(self, cname, T, R, t0, delay, steps, tag, real=False, notx=False):
         """steps: list of (advance, new_message_or_None).  One case.  real: on a real, unserviced Stack"""
         ctx = self.ctx
         desc = {"class": cname, "timeout": str(T), "redo": str(R), "t0": str(t0), "delay": str(delay),
                 "steps": [(str(a), m) for a, m in steps], "stack": "real Stack, not serviced" if real else "double"}
-        built = self.build(cname, T, R, t0, tx=("m0" if cname == "Exchange" else None), real=real)
+        # notx: a base Exchange that has nothing to transmit yet when it is started (its first message comes later with
+        # send()): redo intervals pass -- and are counted -- without a transmission
+        notx = notx and cname == "Exchange"
+        if notx:
+            desc["first_message"] = "sent later"
+        built = self.build(cname, T, R, t0, tx=("m0" if cname == "Exchange" and not notx else None), real=real)
         if built is None:
             ctx.case(desc, nontrivial=False)
             return
@@ -142,7 +147,7 @@ class Rig(object):
         t = Fraction(t0) + delay
         stamper.change(float(t))
         model_sent = []
-        latest = "m0"
+        latest = None if notx else "m0"
         try:
             if cname == "Exchanger":
                 ex.start("m0")
@@ -185,7 +190,10 @@ class Rig(object):
                     ctx.hit("timeout_due_exactly")
             elif Rm > 0 and t - rstart >= Rm:
                 rstart = t
-                model_sent.append((t, latest))
+                if latest is not None:
+                    model_sent.append((t, latest))
+                else:
+                    ctx.hit("redo_interval_elapsed_with_nothing_to_send")
                 due += 1
                 ctx.hit("redo_due")
                 if Rm > 0 and Tm > 0 and t - tstart >= Tm:
@@ -287,6 +295,8 @@ def worker(ctx, job):
                 if k % 3 == 0:
                     rig.schedule(cname, T, R, Fraction(0), delay, steps, "random", real=True)
                     ctx.hit("random_schedules_on_a_real_stack")
+                if k % 3 == 1 and cname == "Exchange":
+                    rig.schedule(cname, T, R, Fraction(0), delay, steps, "random", notx=True)
                 if k == 0 and job["index"] % 7 == 0:
                     ctx.sample({"class": cname, "timeout": str(T), "redo": str(R), "delay_before_start": str(delay),
                                 "first_steps": [(str(a), m) for a, m in steps[:8]]})
@@ -318,3 +328,4 @@ def run(ctx):
     ctx.floor("new_message_sent", nrand * 20)
     ctx.floor("events", nact * 340)
     ctx.floor("real_stack_steps", nact * nrand)
+    ctx.floor("redo_interval_elapsed_with_nothing_to_send", 200)
